@@ -209,10 +209,31 @@ def _builder_oracle(spec, fails):
         return fails  # the inner program itself is outside the domain
     types = [_ty(t) for t in row]
     outer_row = ([tys.Bool] if kind == "cond" else []) + types
-    outer = bdfg.Dfg(*outer_row)
-    wires = list(outer.inputs())
+    where = spec.get("outer", "dfg")
+    if "qubit" in row:
+        where = "dfg"  # only copyable values may cross a region boundary
+    extra_links = []
+    if where == "nonlocal":
+        # the insertion happens inside a nested region; the wires come from the enclosing one
+        top = bdfg.Dfg(*outer_row)
+        wires = list(top.inputs())
+        outer = top.add_nested()
+        if wires:
+            extra_links = [((top.input_node.idx, -1), (outer.parent_node.idx, -1))]
+    elif where == "block":
+        # the insertion happens inside a basic block; the wires come from a block that dominates it
+        from hugr.build import cfg as bcfg
+
+        c = bcfg.Cfg(*outer_row)
+        entry = c.add_entry()
+        entry.set_single_succ_outputs(*entry.inputs())
+        wires = list(entry.inputs())
+        outer = c.add_successor(entry[0])
+    else:
+        outer = bdfg.Dfg(*outer_row)
+        wires = list(outer.inputs())
     for _ in range(pre):  # some earlier nodes so indices differ
-        if wires and spec["row"] and spec["row"][0] != "qubit":
+        if wires and spec["row"] and spec["row"][0] != "qubit" and where == "dfg":
             from hugr import ops as _ops
 
             outer.add_op(_ops.Noop(), wires[-1])
@@ -247,7 +268,7 @@ def _builder_oracle(spec, fails):
 
     walk(inner.hugr.root.idx, root_img)
     # the wires must be attached to the image root's inputs, in order
-    wire_links = [((w.node.idx, w.offset), (root_img, k)) for k, w in enumerate(wires)]
+    wire_links = [((w.node.idx, w.offset), (root_img, k)) for k, w in enumerate(wires)] + extra_links
     nodes_a, links_a = a_before
     a_plus = (nodes_a, sorted(links_a + wire_links))
     _iso_failures(site, a_plus, b_before, after, mapping, outer.parent_node.idx, inner.hugr.root.idx, fails)
@@ -278,6 +299,7 @@ def cases(rng, tier):
             "kind": rng.choice(["nested", "cfg", "cond", "loop"]),
             "row": [rng.choice(TYS) for _ in range(rng.randint(0, 3))],
             "meta": rng.random() < 0.5, "pre": rng.randint(0, 2),
+            "outer": rng.choice(["dfg", "dfg", "nonlocal", "block"]),
         }
 
 
@@ -290,6 +312,8 @@ def nontrivial(spec, obs):
 
 def stats(spec, obs, counters):
     counters[f"kind.{spec.get('kind', 'raw')}"] += 1
+    if spec.get("kind", "raw") != "raw":
+        counters[f"inserted-into.{spec.get('outer', 'dfg')}"] += 1
     if spec.get("kind", "raw") == "raw":
         counters["b.with-deletion"] += any(o[0] == "delete_node" for o in spec["b"])
         counters["b.with-order-link"] += any(o[0] == "add_order_link" for o in spec["b"])
